@@ -33,7 +33,7 @@ use std::path::PathBuf;
 
 use alloc::collections::BTreeMap;
 use alloc::string::{String, ToString};
-use alloc::{vec, vec::Vec};
+use alloc::vec::Vec;
 use core::cell::RefCell;
 
 use combine::Parser;
@@ -43,7 +43,7 @@ use temporal_provider::prelude::*;
 use tzif::{
     self,
     data::{
-        posix::{DstTransitionInfo, PosixTzString, TransitionDay, ZoneVariantInfo},
+        posix::{PosixTzString, TransitionDay, ZoneVariantInfo},
         time::Seconds,
         tzif::{DataBlock, LocalTimeTypeRecord, TzifData, TzifHeader},
     },
@@ -211,46 +211,74 @@ impl Tzif {
     }
 
     pub fn get(&self, epoch_seconds: &Seconds) -> TemporalResult<TimeZoneOffset> {
+        let (record, transition_epoch) = self.record_at(epoch_seconds.0)?;
+        Ok(TimeZoneOffset {
+            transition_epoch,
+            offset: record.offset,
+        })
+    }
+
+    /// The local time record in force at an instant, and the latest transition at or before it.
+    fn record_at(&self, epoch_seconds: i64) -> TemporalResult<(LocalTimeRecord, Option<i64>)> {
         let db = self.get_data_block2()?;
-
-        let result = db.transition_times.binary_search(epoch_seconds);
-
-        match result {
-            Ok(idx) => Ok(get_timezone_offset(db, idx - 1)),
-            // <https://datatracker.ietf.org/doc/html/rfc8536#section-3.2>
-            // If there are no transitions, local time for all timestamps is specified by the TZ
-            // string in the footer if present and nonempty; otherwise, it is
-            // specified by time type 0.
-            Err(_) if db.transition_times.is_empty() => {
-                if let Some(posix_tz_string) = self.posix_tz_string() {
-                    resolve_posix_tz_string_for_epoch_seconds(posix_tz_string, epoch_seconds.0)
-                } else {
-                    Ok(TimeZoneOffset {
-                        offset: db.local_time_type_records[0].utoff.0,
-                        transition_epoch: None,
-                    })
-                }
-            }
-            Err(idx) if idx == 0 => Ok(get_timezone_offset(db, idx)),
-            Err(idx) => {
-                if db.transition_times.len() <= idx {
-                    // The transition time provided is beyond the length of
-                    // the available transition time, so the time zone is
-                    // resolved with the POSIX tz string.
-                    let mut offset = resolve_posix_tz_string_for_epoch_seconds(
-                        self.posix_tz_string().ok_or(TemporalError::general(
-                            "No POSIX tz string to resolve with.",
-                        ))?,
-                        epoch_seconds.0,
-                    )?;
-                    offset
-                        .transition_epoch
-                        .get_or_insert_with(|| db.transition_times[idx - 1].0);
-                    return Ok(offset);
-                }
-                Ok(get_timezone_offset(db, idx - 1))
+        // Number of transitions at or before the instant: the transition second itself
+        // already has the new record.
+        let idx = db
+            .transition_times
+            .partition_point(|t| t.0 <= epoch_seconds);
+        if idx == db.transition_times.len() {
+            // <https://datatracker.ietf.org/doc/html/rfc8536#section-3.3>
+            // Beyond the last transition local time is specified by the TZ string in
+            // the footer, if present and nonempty.
+            if let Some(posix_tz_string) = self.posix_tz_string() {
+                let last = db.transition_times.last().map(|t| t.0);
+                let (record, rule_transition) = posix_record_at(posix_tz_string, epoch_seconds);
+                // A rule transition older than the table's last one is superseded by it.
+                let transition = match (rule_transition, last) {
+                    (Some(rule), Some(last)) => Some(rule.max(last)),
+                    (rule, last) => rule.or(last),
+                };
+                return Ok((record, transition));
             }
         }
+        if idx == 0 {
+            // <https://datatracker.ietf.org/doc/html/rfc8536#section-3.2>
+            // Local time for timestamps before the first transition is specified by
+            // the first time type (time type 0).
+            return Ok((initial_record(db), None));
+        }
+        Ok((
+            get_local_record(db, idx - 1).into(),
+            Some(db.transition_times[idx - 1].0),
+        ))
+    }
+
+    /// The record in force just before `start` and every transition in `start..=end`,
+    /// from the table and, beyond it, from the rule in the footer.
+    fn transitions_between(
+        &self,
+        start: i64,
+        end: i64,
+    ) -> TemporalResult<(LocalTimeRecord, Vec<(i64, LocalTimeRecord)>)> {
+        let db = self.get_data_block2()?;
+        let (before, _) = self.record_at(start - 1)?;
+        let first = db.transition_times.partition_point(|t| t.0 < start);
+        let mut transitions: Vec<(i64, LocalTimeRecord)> = (first..db.transition_times.len())
+            .take_while(|idx| db.transition_times[*idx].0 <= end)
+            .map(|idx| (db.transition_times[idx].0, get_local_record(db, idx).into()))
+            .collect();
+        let last = db.transition_times.last().map(|t| t.0);
+        if let Some(posix_tz_string) = self.posix_tz_string() {
+            if last.is_none_or(|last| last < end) {
+                let lower = last.map_or(start, |last| start.max(last + 1));
+                transitions.extend(
+                    posix_transitions_between(posix_tz_string, lower, end)
+                        .into_iter()
+                        .filter(|(t, _)| lower <= *t),
+                );
+            }
+        }
+        Ok((before, transitions))
     }
 
     // For more information, see /docs/TZDB.md
@@ -265,75 +293,53 @@ impl Tzif {
     /// be provided. This time does NOT exist due to the +1 jump from
     /// 02:00 -> 03:00 (but of course it does as a nanosecond value).
     pub fn v2_estimate_tz_pair(&self, seconds: &Seconds) -> TemporalResult<LocalTimeRecordResult> {
-        // We need to estimate a tz pair.
-        // First search the ambiguous seconds.
-        let db = self.get_data_block2()?;
-        let b_search_result = db.transition_times.binary_search(seconds);
-
-        let estimated_idx = match b_search_result {
-            // TODO: Double check returning early here with tests.
-            Ok(idx) => return Ok(get_local_record(db, idx).into()),
-            Err(idx) if idx == 0 => {
-                return Ok(LocalTimeRecordResult::Single(
-                    get_local_record(db, idx).into(),
-                ))
+        let records = self.local_time_records(seconds.0)?;
+        Ok(match records.as_slice() {
+            [] => LocalTimeRecordResult::Empty,
+            [record] => LocalTimeRecordResult::Single(*record),
+            [first, .., last] => {
+                let (std, dst) = if first.is_dst && !last.is_dst {
+                    (*last, *first)
+                } else {
+                    (*first, *last)
+                };
+                LocalTimeRecordResult::Ambiguous { std, dst }
             }
-            Err(idx) => {
-                if db.transition_times.len() <= idx {
-                    // The transition time provided is beyond the length of
-                    // the available transition time, so the time zone is
-                    // resolved with the POSIX tz string.
-                    return resolve_posix_tz_string(
-                        self.posix_tz_string()
-                            .ok_or(TemporalError::general("Could not resolve time zone."))?,
-                        seconds.0,
-                    );
-                }
-                idx
+        })
+    }
+
+    /// Every local time record under which the wall-clock reading `local_seconds` (seconds
+    /// from the epoch on the wall clock) occurs, in the order of the instants it denotes.
+    fn local_time_records(&self, local_seconds: i64) -> TemporalResult<Vec<LocalTimeRecord>> {
+        // Offsets are shorter than a day, so the instants that can read `local_seconds`
+        // lie within a day of it: look at the records in force over that window.
+        const WINDOW: i64 = 2 * 86_400;
+        let (before, transitions) =
+            self.transitions_between(local_seconds - WINDOW, local_seconds + WINDOW)?;
+        let mut records = Vec::new();
+        let mut record = before;
+        let mut segment_start = i64::MIN;
+        for (transition, next) in transitions
+            .into_iter()
+            .map(|(t, r)| (t, Some(r)))
+            .chain([(i64::MAX, None)])
+        {
+            let candidate = local_seconds - record.offset;
+            if segment_start <= candidate && candidate < transition {
+                records.push(record);
             }
-        };
-
-        // The estimated index will be off based on the amount missing
-        // from the lack of offset.
-        //
-        // This means that we may need (idx, idx - 1) or (idx - 1, idx - 2)
-        let record = get_local_record(db, estimated_idx);
-        let record_minus_one = get_local_record(db, estimated_idx - 1);
-
-        // Q: Potential shift bugs with odd historical transitions? This
-        //
-        // Shifts the 2 rule window for positive zones that would have returned
-        // a different idx.
-        let shift_window = usize::from((record.utoff + record_minus_one.utoff) >= Seconds(0));
-
-        let new_idx = estimated_idx - shift_window;
-
-        let current_transition = db.transition_times[new_idx];
-        let current_diff = *seconds - current_transition;
-
-        let initial_record = get_local_record(db, new_idx - 1);
-        let next_record = get_local_record(db, new_idx);
-
-        // Adjust for offset inversion from northern/southern hemisphere.
-        let offset_range = offset_range(initial_record.utoff.0, next_record.utoff.0);
-        match offset_range.contains(&current_diff.0) {
-            true if next_record.is_dst => Ok(LocalTimeRecordResult::Empty),
-            true => Ok((next_record, initial_record).into()),
-            false if current_diff <= initial_record.utoff => Ok(initial_record.into()),
-            false => Ok(next_record.into()),
+            segment_start = transition;
+            if let Some(next) = next {
+                record = next;
+            }
         }
+        Ok(records)
     }
 }
 
 #[inline]
-fn get_timezone_offset(db: &DataBlock, idx: usize) -> TimeZoneOffset {
-    // NOTE: Transition type can be empty. If no transition_type exists,
-    // then use 0 as the default index of local_time_type_records.
-    let offset = db.local_time_type_records[db.transition_types.get(idx).copied().unwrap_or(0)];
-    TimeZoneOffset {
-        transition_epoch: db.transition_times.get(idx).map(|s| s.0),
-        offset: offset.utoff.0,
-    }
+fn initial_record(db: &DataBlock) -> LocalTimeRecord {
+    db.local_time_type_records[0].into()
 }
 
 #[inline]
@@ -343,271 +349,83 @@ fn get_local_record(db: &DataBlock, idx: usize) -> LocalTimeTypeRecord {
     db.local_time_type_records[db.transition_types.get(idx).copied().unwrap_or(0)]
 }
 
-#[inline]
-fn resolve_posix_tz_string_for_epoch_seconds(
-    posix_tz_string: &PosixTzString,
-    seconds: i64,
-) -> TemporalResult<TimeZoneOffset> {
-    let Some(dst_variant) = &posix_tz_string.dst_info else {
-        // Regardless of the time, there is one variant and we can return it.
-        return Ok(TimeZoneOffset {
-            transition_epoch: None,
-            offset: LocalTimeRecord::from_standard_time(&posix_tz_string.std_info).offset,
-        });
-    };
-
-    let start = &dst_variant.start_date;
-    let end = &dst_variant.end_date;
-
-    // TODO: Resolve safety issue around utils.
-    //   Using f64 is a hold over from early implementation days and should
-    //   be moved away from.
-
-    let (is_transition_day, transition) =
-        cmp_seconds_to_transitions(&start.day, &end.day, seconds)?;
-
-    let transition =
-        compute_tz_for_epoch_seconds(is_transition_day, transition, seconds, dst_variant);
-    let std_offset = LocalTimeRecord::from_standard_time(&posix_tz_string.std_info).offset;
-    let dst_offset = LocalTimeRecord::from_daylight_savings_time(&dst_variant.variant_info).offset;
-    let (old_offset, new_offset) = match transition {
-        TransitionType::Dst => (std_offset, dst_offset),
-        TransitionType::Std => (dst_offset, std_offset),
-    };
-    let transition = match transition {
-        TransitionType::Dst => start,
-        TransitionType::Std => end,
-    };
-    let year = utils::epoch_time_to_epoch_year(seconds * 1000);
-    let year_epoch = utils::epoch_days_for_year(year) * 86400;
-    let leap_day = utils::mathematical_in_leap_year(seconds * 1000) as u16;
-
-    let days = match transition.day {
-        TransitionDay::NoLeap(day) if day > 59 => day - 1 + leap_day,
-        TransitionDay::NoLeap(day) => day - 1,
-        TransitionDay::WithLeap(day) => day,
+/// The epoch day on which a POSIX TZ rule takes effect in `year`.
+fn posix_rule_epoch_day(day: &TransitionDay, year: i32) -> i64 {
+    let year_start = i64::from(utils::epoch_days_for_year(year));
+    let is_leap = utils::mathematical_days_in_year(year) == 366;
+    match *day {
+        // `Jn`: 1..=365, February 29 is never counted.
+        TransitionDay::NoLeap(day) => {
+            year_start + i64::from(day) - 1 + i64::from(is_leap && day >= 60)
+        }
+        // `n`: 0..=365, February 29 is counted in leap years.
+        TransitionDay::WithLeap(day) => year_start + i64::from(day),
+        // `Mm.w.d`: day `d` (0 = Sunday) of week `w` of month `m`; week 5 is the last one.
         TransitionDay::Mwd(month, week, day) => {
-            let days_to_month = utils::month_to_day((month - 1) as u8, leap_day);
-            let days_in_month = u16::from(utils::iso_days_in_month(year, month as u8) - 1);
-
-            // Month starts in the day...
-            let day_offset =
-                (u16::from(utils::epoch_seconds_to_day_of_week(i64::from(year_epoch)))
-                    + days_to_month)
-                    .rem_euclid(7);
-
-            // EXAMPLE:
-            //
-            // 0   1   2   3   4   5   6
-            // sun mon tue wed thu fri sat
-            // -   -   -   0   1   2   3
-            // 4   5   6   7   8   9   10
-            // 11  12  13  14  15  16  17
-            // 18  19  20  21  22  23  24
-            // 25  26  27  28  29  30  -
-            //
-            // The day_offset = 3, since the month starts on a wednesday.
-            //
-            // We're looking for the second friday of the month. Thus, since the month started before
-            // a friday, we need to start counting from week 0:
-            //
-            // day_of_month = (week - u16::from(day_offset <= day)) * 7 + day - day_offset = (2 - 1) * 7 + 5 - 3 = 9
-            //
-            // This works if the month started on a day before the day we want (day_offset <= day). However, if that's not the
-            // case, we need to start counting on week 1. For example, calculate the day of the month for the third monday
-            // of the month:
-            //
-            // day_of_month = (week - u16::from(day_offset <= day)) * 7 + day - day_offset = (3 - 0) * 7 + 1 - 3 = 19
-            let mut day_of_month = (week - u16::from(day_offset <= day)) * 7 + day - day_offset;
-
-            // If we're on week 5, we need to clamp to the last valid day.
-            if day_of_month > days_in_month - 1 {
-                day_of_month -= 7
+            let month_start = i64::from(utils::epoch_days_from_gregorian_date(year, month as u8, 1));
+            let first_weekday = (month_start + 4).rem_euclid(7);
+            let mut day_of_month =
+                (i64::from(day) - first_weekday).rem_euclid(7) + 7 * (i64::from(week) - 1);
+            if day_of_month >= i64::from(utils::iso_days_in_month(year, month as u8)) {
+                day_of_month -= 7;
             }
-
-            days_to_month + day_of_month
+            month_start + day_of_month
         }
-    };
-
-    // Transition time is on local time, so we need to add the UTC offset to get the correct UTC timestamp
-    // for the transition.
-    let transition_epoch =
-        i64::from(year_epoch) + i64::from(days) * 86400 + transition.time.0 - old_offset;
-    Ok(TimeZoneOffset {
-        offset: new_offset,
-        transition_epoch: Some(transition_epoch),
-    })
+    }
 }
 
-/// Resolve the footer of a tzif file.
-///
-/// Seconds are epoch seconds in local time.
-#[inline]
-fn resolve_posix_tz_string(
+/// The transitions of the rule of a POSIX TZ string in `start..=end`, in order.
+fn posix_transitions_between(
     posix_tz_string: &PosixTzString,
-    seconds: i64,
-) -> TemporalResult<LocalTimeRecordResult> {
-    let std = &posix_tz_string.std_info;
-    let Some(dst) = &posix_tz_string.dst_info else {
+    start: i64,
+    end: i64,
+) -> Vec<(i64, LocalTimeRecord)> {
+    let Some(dst_info) = &posix_tz_string.dst_info else {
+        return Vec::new();
+    };
+    let std = LocalTimeRecord::from_standard_time(&posix_tz_string.std_info);
+    let dst = LocalTimeRecord::from_daylight_savings_time(&dst_info.variant_info);
+    let first_year = utils::epoch_time_to_epoch_year(start.saturating_mul(1000)) - 1;
+    let last_year = utils::epoch_time_to_epoch_year(end.saturating_mul(1000)) + 1;
+    let mut transitions = Vec::new();
+    for year in first_year..=last_year {
+        // The rule times are wall-clock times under the record in force before the change.
+        let to_dst = posix_rule_epoch_day(&dst_info.start_date.day, year) * 86_400
+            + dst_info.start_date.time.0
+            - std.offset;
+        let to_std = posix_rule_epoch_day(&dst_info.end_date.day, year) * 86_400
+            + dst_info.end_date.time.0
+            - dst.offset;
+        transitions.push((to_dst, dst));
+        transitions.push((to_std, std));
+    }
+    transitions.sort_by_key(|(t, _)| *t);
+    transitions.retain(|(t, _)| (start..=end).contains(t));
+    transitions
+}
+
+/// The record a POSIX TZ string puts in force at an instant, and the rule's latest
+/// transition at or before it.
+fn posix_record_at(
+    posix_tz_string: &PosixTzString,
+    epoch_seconds: i64,
+) -> (LocalTimeRecord, Option<i64>) {
+    if posix_tz_string.dst_info.is_none() {
         // Regardless of the time, there is one variant and we can return it.
-        return Ok(LocalTimeRecord::from_standard_time(&posix_tz_string.std_info).into());
-    };
-
-    // TODO: Resolve safety issue around utils.
-    //   Using f64 is a hold over from early implementation days and should
-    //   be moved away from.
-
-    // NOTE:
-    // STD -> DST == start
-    // DST -> STD == end
-    let (is_transition_day, is_dst) =
-        cmp_seconds_to_transitions(&dst.start_date.day, &dst.end_date.day, seconds)?;
-    if is_transition_day {
-        let time = utils::epoch_ms_to_ms_in_day(seconds * 1_000) as i64 / 1_000;
-        let transition_time = if is_dst == TransitionType::Dst {
-            dst.start_date.time.0
-        } else {
-            dst.end_date.time.0
-        };
-        let transition_diff = if is_dst == TransitionType::Dst {
-            std.offset.0 - dst.variant_info.offset.0
-        } else {
-            dst.variant_info.offset.0 - std.offset.0
-        };
-        let offset = offset_range(transition_time + transition_diff, transition_time);
-        match offset.contains(&time) {
-            true if is_dst == TransitionType::Dst => return Ok(LocalTimeRecordResult::Empty),
-            true => {
-                return Ok(LocalTimeRecordResult::Ambiguous {
-                    std: LocalTimeRecord::from_standard_time(std),
-                    dst: LocalTimeRecord::from_daylight_savings_time(&dst.variant_info),
-                })
-            }
-            _ => {}
-        }
+        return (
+            LocalTimeRecord::from_standard_time(&posix_tz_string.std_info),
+            None,
+        );
     }
-
-    match is_dst {
-        TransitionType::Dst => {
-            Ok(LocalTimeRecord::from_daylight_savings_time(&dst.variant_info).into())
-        }
-        TransitionType::Std => {
-            Ok(LocalTimeRecord::from_standard_time(&posix_tz_string.std_info).into())
-        }
+    // Every year has both transitions, so the latest one is at most a year back.
+    const YEAR: i64 = 367 * 86_400;
+    match posix_transitions_between(posix_tz_string, epoch_seconds - YEAR, epoch_seconds).pop() {
+        Some((transition, record)) => (record, Some(transition)),
+        None => (
+            LocalTimeRecord::from_standard_time(&posix_tz_string.std_info),
+            None,
+        ),
     }
-}
-
-fn compute_tz_for_epoch_seconds(
-    is_transition_day: bool,
-    transition: TransitionType,
-    seconds: i64,
-    dst_variant: &DstTransitionInfo,
-) -> TransitionType {
-    if is_transition_day && transition == TransitionType::Dst {
-        let time = utils::epoch_ms_to_ms_in_day(seconds * 1_000) / 1_000;
-        let transition_time = dst_variant.start_date.time.0 - dst_variant.variant_info.offset.0;
-        if i64::from(time) < transition_time {
-            return TransitionType::Std;
-        }
-    } else if is_transition_day {
-        let time = utils::epoch_ms_to_ms_in_day(seconds * 1_000) / 1_000;
-        let transition_time = dst_variant.end_date.time.0 - dst_variant.variant_info.offset.0;
-        if i64::from(time) < transition_time {
-            return TransitionType::Dst;
-        }
-    }
-
-    transition
-}
-
-/// The month, week of month, and day of week value built into the POSIX tz string.
-///
-/// For more information, see the [POSIX tz string docs](https://sourceware.org/glibc/manual/2.40/html_node/Proleptic-TZ.html)
-#[derive(Debug, Clone, Copy, PartialEq, Eq, PartialOrd, Ord)]
-struct Mwd(u16, u16, u16);
-
-impl Mwd {
-    fn from_seconds(seconds: i64) -> Self {
-        let month = utils::epoch_ms_to_month_in_year(seconds * 1_000) as u16;
-        let day_of_month = utils::epoch_seconds_to_day_of_month(seconds);
-        let week_of_month = day_of_month / 7 + 1;
-        let day_of_week = utils::epoch_seconds_to_day_of_week(seconds);
-        Self(month, week_of_month, u16::from(day_of_week))
-    }
-}
-
-fn cmp_seconds_to_transitions(
-    start: &TransitionDay,
-    end: &TransitionDay,
-    seconds: i64,
-) -> TemporalResult<(bool, TransitionType)> {
-    let cmp_result = match (start, end) {
-        (
-            TransitionDay::Mwd(start_month, start_week, start_day),
-            TransitionDay::Mwd(end_month, end_week, end_day),
-        ) => {
-            let mwd = Mwd::from_seconds(seconds);
-            let start = Mwd(*start_month, *start_week, *start_day);
-            let end = Mwd(*end_month, *end_week, *end_day);
-
-            let is_transition = start == mwd || end == mwd;
-            let is_dst = if start > end {
-                mwd < end || start <= mwd
-            } else {
-                start <= mwd && mwd < end
-            };
-
-            (is_transition, is_dst)
-        }
-        (TransitionDay::WithLeap(start), TransitionDay::WithLeap(end)) => {
-            let day_in_year = utils::epoch_time_to_day_in_year(seconds * 1_000) as u16;
-            let is_transition = *start == day_in_year || *end == day_in_year;
-            let is_dst = if start > end {
-                day_in_year < *end || *start <= day_in_year
-            } else {
-                *start <= day_in_year && day_in_year < *end
-            };
-            (is_transition, is_dst)
-        }
-        // TODO: do we need to modify the logic for leap years?
-        (TransitionDay::NoLeap(start), TransitionDay::NoLeap(end)) => {
-            let day_in_year = utils::epoch_time_to_day_in_year(seconds * 1_000) as u16;
-            let is_transition = *start == day_in_year || *end == day_in_year;
-            let is_dst = if start > end {
-                day_in_year < *end || *start <= day_in_year
-            } else {
-                *start <= day_in_year && day_in_year < *end
-            };
-            (is_transition, is_dst)
-        }
-        // NOTE: The assumption here is that mismatched day types on
-        // a POSIX string is an illformed string.
-        _ => {
-            return Err(
-                TemporalError::assert().with_message("Mismatched day types on a POSIX string.")
-            )
-        }
-    };
-
-    match cmp_result {
-        (true, dst) if dst => Ok((true, TransitionType::Dst)),
-        (true, _) => Ok((true, TransitionType::Std)),
-        (false, dst) if dst => Ok((false, TransitionType::Dst)),
-        (false, _) => Ok((false, TransitionType::Std)),
-    }
-}
-
-#[derive(Debug, Clone, Copy, PartialEq, Eq)]
-enum TransitionType {
-    Dst,
-    Std,
-}
-
-fn offset_range(offset_one: i64, offset_two: i64) -> core::ops::Range<i64> {
-    if offset_one < offset_two {
-        return offset_one..offset_two;
-    }
-    offset_two..offset_one
 }
 
 #[derive(Debug, Default)]
@@ -658,26 +476,14 @@ impl TimeZoneProvider for FsTzdbProvider {
         identifier: &str,
         iso_datetime: IsoDateTime,
     ) -> TemporalResult<Vec<EpochNanoseconds>> {
-        let epoch_nanos = iso_datetime.as_nanoseconds()?;
-        let seconds = (epoch_nanos.0 / 1_000_000_000) as i64;
+        // The reading may lie up to a day outside of the range of instants.
+        let local_nanos = iso_datetime.as_unchecked_nanoseconds();
+        let seconds = local_nanos.div_euclid(1_000_000_000) as i64;
         let tzif = self.get(identifier)?;
-        let local_time_record_result = tzif.v2_estimate_tz_pair(&Seconds(seconds))?;
-        let result = match local_time_record_result {
-            LocalTimeRecordResult::Empty => Vec::default(),
-            LocalTimeRecordResult::Single(r) => {
-                let epoch_ns =
-                    EpochNanoseconds::try_from(epoch_nanos.0 - seconds_to_nanoseconds(r.offset))?;
-                vec![epoch_ns]
-            }
-            LocalTimeRecordResult::Ambiguous { std, dst } => {
-                let std_epoch_ns =
-                    EpochNanoseconds::try_from(epoch_nanos.0 - seconds_to_nanoseconds(std.offset))?;
-                let dst_epoch_ns =
-                    EpochNanoseconds::try_from(epoch_nanos.0 - seconds_to_nanoseconds(dst.offset))?;
-                vec![std_epoch_ns, dst_epoch_ns]
-            }
-        };
-        Ok(result)
+        tzif.local_time_records(seconds)?
+            .into_iter()
+            .map(|r| EpochNanoseconds::try_from(local_nanos - seconds_to_nanoseconds(r.offset)))
+            .collect()
     }
 
     fn get_named_tz_offset_nanoseconds(
@@ -686,7 +492,7 @@ impl TimeZoneProvider for FsTzdbProvider {
         utc_epoch: i128,
     ) -> TemporalResult<TimeZoneOffset> {
         let tzif = self.get(identifier)?;
-        let seconds = (utc_epoch / 1_000_000_000) as i64;
+        let seconds = utc_epoch.div_euclid(1_000_000_000) as i64;
         tzif.get(&Seconds(seconds))
     }
 
